@@ -300,3 +300,85 @@ example : Valid ({ n_users := 4000, ratio := 1, su := 0, ou := 1 / 10, ru := 1 /
                    aops := 1 / 4, arpo := 10, covariates := false } : Params ℚ) := by decide +kernel
 
 end C20
+
+/-! ## sessions data: per-row invariants -/
+
+namespace C20
+open Datasets
+
+variable {α : Type} [Field α] [LinearOrder α] [IsStrictOrderedRing α]
+
+theorem sum_map_nonneg {ι : Type} (l : List ι) (f : ι → α) (h : ∀ i ∈ l, 0 ≤ f i) : 0 ≤ (l.map f).sum := by
+  induction l with
+  | nil => simp
+  | cons a l ih =>
+    simp only [List.map_cons, List.sum_cons]
+    exact add_nonneg (h a List.mem_cons_self) (ih (fun i hi => h i (List.mem_cons_of_mem _ hi)))
+
+theorem sum_map_le {ι : Type} (l : List ι) (f g : ι → α) (h : ∀ i ∈ l, f i ≤ g i) : (l.map f).sum ≤ (l.map g).sum := by
+  induction l with
+  | nil => simp
+  | cons a l ih =>
+    simp only [List.map_cons, List.sum_cons]
+    exact add_le_add (h a List.mem_cons_self) (ih (fun i hi => h i (List.mem_cons_of_mem _ hi)))
+
+theorem sum_map_eq_zero {ι : Type} (l : List ι) (f : ι → α) (h0 : ∀ i ∈ l, 0 ≤ f i) (hs : (l.map f).sum = 0) :
+    ∀ i ∈ l, f i = 0 := by
+  induction l with
+  | nil => intro i hi; cases hi
+  | cons a l ih =>
+    simp only [List.map_cons, List.sum_cons] at hs
+    have ha := h0 a List.mem_cons_self
+    have hl := sum_map_nonneg l f (fun i hi => h0 i (List.mem_cons_of_mem _ hi))
+    have ha0 : f a = 0 := by linarith
+    have hl0 : (l.map f).sum = 0 := by linarith
+    intro i hi
+    rcases List.mem_cons.mp hi with rfl | hi
+    · exact ha0
+    · exact ih (fun i hi => h0 i (List.mem_cons_of_mem _ hi)) hl0 i hi
+
+/-- the per-user average of a non-negative quantity is non-negative; of a pointwise smaller quantity, smaller -/
+theorem avgByGroup_nonneg (users : List Nat) (vals : Nat → α) (j : Nat) (h : ∀ i, 0 ≤ vals i) :
+    0 ≤ avgByGroup users vals j := by
+  unfold avgByGroup
+  exact div_nonneg (sum_map_nonneg _ _ (fun i _ => h i)) (Nat.cast_nonneg _)
+
+theorem avgByGroup_le (users : List Nat) (f g : Nat → α) (j : Nat) (h : ∀ i, f i ≤ g i) :
+    avgByGroup users f j ≤ avgByGroup users g j := by
+  unfold avgByGroup
+  exact div_le_div_of_nonneg_right (sum_map_le _ _ _ (fun i _ => h i)) (Nat.cast_nonneg _)
+
+/-- **sessions data invariants**: every session row has `sessions = 1`, `0 ≤ orders ≤ 1`, revenue ≥ 0 and zero
+without an order; the (per-user averaged) covariates satisfy `0 ≤ orders_covariate ≤ sessions_covariate` and
+`revenue_covariate ≥ 0` -/
+theorem sessions_invariants (round2 : α → α) (hr0 : round2 0 = 0) (hrn : ∀ x, 0 ≤ x → 0 ≤ round2 x)
+    (P : Params α) (U : UserDraws α) (R : RowDraws α)
+    (hd : DrawsOK P true U R) (row : Row α) (hrow : row ∈ makeData round2 P true U R) :
+    row.sessions = 1 ∧ row.orders ≤ 1 ∧ 0 ≤ row.revenue ∧ (row.orders = 0 → row.revenue = 0)
+    ∧ 0 ≤ row.orders_cov ∧ row.orders_cov ≤ row.sessions_cov ∧ 0 ≤ row.revenue_cov := by
+  simp only [makeData, List.mem_map, List.mem_range] at hrow
+  obtain ⟨j, hj, rfl⟩ := hrow
+  have hord := hd.orders_le j hj
+  simp only [if_true] at hord
+  have hrpo : 0 ≤ R.rpo.getD j 0 := getD_nonneg_of_pos _ hd.rpo_pos j
+  refine ⟨rfl, hord, ?_, ?_, ?_, ?_, ?_⟩
+  · exact hrn _ (mul_nonneg (Nat.cast_nonneg _) hrpo)
+  · intro h0
+    have h0' : R.orders.getD j 0 = 0 := h0
+    show round2 (((R.orders.getD j 0 : Nat) : α) * R.rpo.getD j 0) = 0
+    rw [h0', Nat.cast_zero, zero_mul, hr0]
+  · by_cases hc : P.covariates <;> simp [hc]
+    exact avgByGroup_nonneg _ _ _ (fun i => by unfold rawOrdCov; exact Nat.cast_nonneg _)
+  · by_cases hc : P.covariates <;> simp [hc]
+    apply avgByGroup_le
+    intro i
+    unfold rawOrdCov rawSessCov
+    exact_mod_cast hd.ordersCov_le i
+  · by_cases hc : P.covariates <;> simp [hc]
+    apply hrn
+    apply avgByGroup_nonneg
+    intro i
+    unfold rawRevCov
+    exact mul_nonneg (Nat.cast_nonneg _) (getD_nonneg_of_pos _ hd.rpoCov_pos i)
+
+end C20
